@@ -22,7 +22,6 @@ returns what was observed.  No randomness, no wall clock.
 from __future__ import annotations
 
 import gc
-import os
 import sys
 import traceback
 
